@@ -25,6 +25,16 @@ DEFAULTS = {'integer0': '1', 'boolean0': 'true', 'decimal0': '1', 'string0': 'd'
 def schema(nf, ftype, kind, ver, alt=False):
     tname = ftype if ftype.startswith('U') else 'xs:' + ftype.rstrip('0')
     dflt = f' default="{DEFAULTS[ftype]}"' if ftype in DEFAULTS else ''
+    if alt == 'child':
+        # the fields are optional child elements: an absent child is a missing field whatever default its declaration has (a default fills an empty element, never an absent one)
+        kids = ''.join(f'<xs:element name="f{i}" type="{tname}"{dflt} minOccurs="0"/>' for i in range(nf))
+        cfields = ''.join(f'<xs:field xpath="f{i}"/>' for i in range(nf))
+        return _cls(ver)(f'''<xs:schema {XS}>{TYPES}<xs:element name="r"><xs:complexType><xs:sequence>
+  <xs:element name="k" minOccurs="0" maxOccurs="unbounded"><xs:complexType><xs:sequence>{kids}</xs:sequence></xs:complexType></xs:element>
+  <xs:element name="f" minOccurs="0" maxOccurs="unbounded"><xs:complexType><xs:sequence>{kids}</xs:sequence></xs:complexType></xs:element>
+ </xs:sequence></xs:complexType>
+ <xs:{kind} name="K"><xs:selector xpath="k"/>{cfields}</xs:{kind}>
+ <xs:keyref name="R" refer="K"><xs:selector xpath="f"/>{cfields}</xs:keyref></xs:element></xs:schema>''')
     attrs = ''.join(f'<xs:attribute name="f{i}" type="{tname}"{dflt}/>' for i in range(nf))
     fields = ''.join(f'<xs:field xpath="@f{i}"/>' for i in range(nf))
     if alt:
@@ -66,18 +76,20 @@ def eval_template(args):
     tables = [(list(k), list(f)) for nk in range(0, 4) for k in itertools.product(rows, repeat=nk) for nfr in range(0, 3) for f in itertools.product(rows, repeat=nfr)]
     if nf == 2 and tier != 'thorough': tables = [t for i, t in enumerate(tables) if i % 7 == seed % 7]
     for krows, frows in tables:
-        def el(tag, r): return f'<{tag} ' + ('t="x" ' if alt else '') + ' '.join(f'f{i}="{rng.choice(LEX[ftype][v])}"' for i, v in enumerate(r) if v is not None) + '/>'
+        def el(tag, r):
+            if alt == 'child': return f'<{tag}>' + ''.join(f'<f{i}>{rng.choice(LEX[ftype][v])}</f{i}>' for i, v in enumerate(r) if v is not None) + f'</{tag}>'
+            return f'<{tag} ' + ('t="x" ' if alt else '') + ' '.join(f'f{i}="{rng.choice(LEX[ftype][v])}"' for i, v in enumerate(r) if v is not None) + '/>'
         doc = '<r>' + ''.join(el('k', r) for r in krows) + ''.join(el('f', r) for r in frows) + '</r>'
-        if ftype not in DEFAULTS and kind == 'unique' and any(any(v is None for v in r) and not all(v is None for v in r) for r in krows): rep += 1; continue
+        if (ftype not in DEFAULTS or alt == 'child') and kind == 'unique' and any(any(v is None for v in r) and not all(v is None for v in r) for r in krows): rep += 1; continue
         n += 1
         try: got = s.is_valid(doc)
         except Exception as e: got = f'EXC {type(e).__name__}'
-        if ftype in DEFAULTS:        # an absent field attribute has its default value (1)
+        if ftype in DEFAULTS and alt != 'child':        # an absent field attribute has its default value (1)
             eff = lambda rows: [tuple(1 if v is None else v for v in r) for r in rows]
             exp = key_table_ok(kind, eff(krows), eff(frows))
         else: exp = key_table_ok(kind, krows, frows)
         if got != exp and len(bad) < 3: bad.append(dict(doc=doc, got=got, exp=exp, krows=krows, frows=frows))
-    return dict(template=(nf, ftype, kind, ver) + ((True,) if alt else ()), cases=n, reported=rep, bad=bad)
+    return dict(template=(nf, ftype, kind, ver) + ((alt,) if alt else ()), cases=n, reported=rep, bad=bad)
 
 
 # ---------------------------------------------------------------- refer across levels: the key is declared on a descendant of the keyref's element
@@ -213,6 +225,7 @@ _S2 = {}
 def run(tier, seed, open_findings):
     jobs = [(nf, ft, kind, ver, seed, tier) for nf in (1, 2) for ft in LEX for kind in ('key', 'unique') for ver in ('1.0', '1.1') if not (nf == 2 and ft in DEFAULTS and tier != 'thorough')]
     jobs += [(1, ft, kind, '1.1', seed, tier, True) for ft in ('integer', 'decimal', 'boolean', 'UIntBool') for kind in ('key', 'unique')]
+    jobs += [(nf, ft, kind, ver, seed, tier, 'child') for nf, ft in ((1, 'integer'), (1, 'integer0'), (1, 'boolean0'), (2, 'decimal0'), (1, 'string')) for kind in ('key', 'unique') for ver in ('1.0', '1.1')]
     res = pmap(eval_template, jobs, procs=16, chunk=1)
     fails = [dict(case=dict(template=list(r['template']), doc=b['doc']), observed=dict(valid=b['got'], keys=b['krows'], refs=b['frows']), required=dict(valid=b['exp'])) for r in res for b in r['bad']]
     cases = sum(r['cases'] for r in res)
@@ -290,5 +303,5 @@ def replay(check_name, case):
         s = id_schema(case['ver']); got = s.is_valid(case['doc'])
         return dict(ok=None, observed=dict(valid=got), required='see case') if False else dict(ok=True, observed=dict(valid=got), required='re-run the check for the reference verdict')
     nf, ft, kind, ver = case['template'][:4]
-    s = schema(nf, ft, kind, ver, len(case['template']) > 4); got = s.is_valid(case['doc'])
+    s = schema(nf, ft, kind, ver, (case['template'][4] if len(case['template']) > 4 else False)); got = s.is_valid(case['doc'])
     return dict(ok=True, observed=dict(valid=got), required='re-run the check for the reference verdict')
